@@ -20,6 +20,8 @@ Notation nv_ops := Proof.C27_wit.nv_ops.
 Notation wa := Proof.C27_wit.wa.
 Notation wa2 := Proof.C27_wit.wa2.
 Notation wb := Proof.C27_wit.wb.
+Notation cg_recheck_sched := Proof.C27_wit.cg_recheck_sched.
+Notation retry_sched := Proof.C27_wit.retry_sched.
 
 (* mechanism: peerList and peerMap index the same entries, each PeerID once *)
 Theorem C27_list_map_agree : forall t s g, reachable t s -> (g < length (heap s))%nat ->
@@ -163,4 +165,28 @@ Example C27_nonvacuous_run :
   (match run 10 (nv_ops []) with Some _ => true | None => false end) = false /\
   C27_check 10 (nv_ops []) = false /\
   C27_check 10 (nv_ops [wa]) = false.
+Proof. vm_compute. repeat split; reflexivity. Qed.
+
+(* non-vacuity of the interleavings that cannot be forced on the real code: an update between
+   the check and the delete region of the group cleanup keeps the group (re-check, local.go:262) *)
+Example C27_nonvacuous_group_recheck :
+  match exec (init 5) (firstn 8 cg_recheck_sched), exec (init 5) cg_recheck_sched with
+  | Some s1, Some s =>
+      smu s1 = Some (CgDelete 0 0 []) /\
+      smu s = None /\ gmap s = [(0, 0%nat)] /\ g_deleted (group_at s 0) = false /\
+      read_peers (group_at s 0) [0%nat] = [wa2] /\ g_last (group_at s 0) = 11
+  | _, _ => False
+  end.
+Proof. vm_compute. repeat split; reflexivity. Qed.
+
+(* ... and an announcer that finds its group deleted reloads and lands in a new group
+   (deleted-retry, local.go:169-172) *)
+Example C27_nonvacuous_deleted_retry :
+  match exec (init 5) (firstn 11 retry_sched), exec (init 5) retry_sched with
+  | Some s1, Some s =>
+      nth_error (threads s1) 1 = Some (PAnnLookup 0 wa2) /\
+      g_deleted (group_at s 0) = true /\ gmap s = [(0, 1%nat)] /\
+      read_peers (group_at s 1) [0%nat] = [wa2] /\ nth_error (threads s) 1 = Some (PDone [])
+  | _, _ => False
+  end.
 Proof. vm_compute. repeat split; reflexivity. Qed.
